@@ -81,7 +81,7 @@ static wctx_t wctx[512];
 
 static void* worker(void* a) {
   fb_slot_t* s = (fb_slot_t*)a;
-  wctx_t* w = &wctx[s->id % 512];
+  wctx_t* w = &wctx[s->c % 512];
   int i;
   for (i = 0; i < steps; ++i) {
     unsigned act = (unsigned)(vp_rand(&s->rng) % 15);
@@ -316,15 +316,13 @@ static void* root(void* x) {
       sl[n++] = fb_spawn(breceiver, (void*)(intptr_t)i);
     }
     for (i = 0; i < F; ++i) {
-      // context is indexed by slot id, which fb_spawn assigns next
-      const int sid = atomic_load(&fb_nslots);
-      wctx_t* w = &wctx[sid % 512];
+      wctx_t* w = &wctx[i % 512];
       w->clique = (i < ncl * CLIQUE && i / CLIQUE < 64) ? i / CLIQUE : -1;
       w->sv[0] = w->sv[1] = -1;
       if (use_io && i % 4 == 0) {
         if (socketpair(AF_UNIX, SOCK_STREAM, 0, w->sv) != 0) w->sv[0] = w->sv[1] = -1;
       }
-      sl[n++] = fb_spawn(worker, NULL);
+      sl[n++] = fb_spawn(worker, (void*)(intptr_t)i);
     }
     fb_join_all(sl, n);
     // wait (by yielding) for detached children; they are entitled to finish as well
